@@ -112,6 +112,7 @@ type corpusClassEntry struct {
 	Kind  int               `json:"kind"`
 	Scope map[string]string `json:"scope,omitempty"`
 	Date  int64             `json:"date"`
+	Conf  []string          `json:"conf,omitempty"` // real configurable lints with a verdict (not NA/NE) on this object
 }
 
 var corpusClassMemo []corpusClassEntry
@@ -128,7 +129,7 @@ func corpusClassIndex() []corpusClassEntry {
 			fmt.Fprintf(&sb, "%s:%d:%d;", n, st.Size(), st.ModTime().UnixNano())
 		}
 	}
-	path := filepath.Join(verifRoot(), "work", "corpus-index-"+shortHash(sb.String()+binHash())+".json")
+	path := filepath.Join(verifRoot(), "work", "corpus-index2-"+shortHash(sb.String()+binHash())+".json")
 	if b, err := os.ReadFile(path); err == nil {
 		var out []corpusClassEntry
 		if json.Unmarshal(b, &out) == nil && len(out) > 0 {
@@ -150,6 +151,7 @@ func corpusClassIndex() []corpusClassEntry {
 		if o.Kind == KCert {
 			e.Scope = scopeClasses(p.Cert)
 		}
+		e.Conf = verdictConfigurables(p)
 		out = append(out, e)
 	}
 	b, _ := json.Marshal(out)
@@ -159,6 +161,41 @@ func corpusClassIndex() []corpusClassEntry {
 		os.Rename(tmp, path)
 	}
 	corpusClassMemo = out
+	return out
+}
+
+// verdictConfigurables lists the real configurable lints that give a verdict
+// (pass or worse) on the object under the empty configuration.
+func verdictConfigurables(p *Parsed) (out []string) {
+	defer func() { recover() }()
+	cfg := lint.NewEmptyConfig()
+	g := lint.GlobalRegistry()
+	switch p.Kind {
+	case KCert:
+		for _, l := range g.CertificateLints().Lints() {
+			if _, ok := l.Lint().(lint.Configurable); ok && !isProbeName(l.Name) {
+				if r := l.Execute(p.Cert, cfg); r != nil && r.Status >= lint.Pass {
+					out = append(out, l.Name)
+				}
+			}
+		}
+	case KCRL:
+		for _, l := range g.RevocationListLints().Lints() {
+			if _, ok := l.Lint().(lint.Configurable); ok && !isProbeName(l.Name) {
+				if r := l.Execute(p.CRL, cfg); r != nil && r.Status >= lint.Pass {
+					out = append(out, l.Name)
+				}
+			}
+		}
+	case KOCSP:
+		for _, l := range g.OcspResponseLints().Lints() {
+			if _, ok := l.Lint().(lint.Configurable); ok && !isProbeName(l.Name) {
+				if r := l.Execute(p.OCSP, cfg); r != nil && r.Status >= lint.Pass {
+					out = append(out, l.Name)
+				}
+			}
+		}
+	}
 	return out
 }
 
@@ -895,6 +932,9 @@ func genFault(seed uint64, prop, tier string) *Plan {
 				hg.emitFilter(reg)
 			}
 		}
+	}
+	if g.Chance(0.5) {
+		p.Ops = append(p.Ops, Op{K: "fresh", Reg: g.Intn(len(hg.mregs))})
 	}
 	return p
 }
